@@ -54,6 +54,8 @@ fn entry(p: &NumberParts) -> String {
     }
 }
 
+static PANIC_SITE: std::sync::Mutex<String> = std::sync::Mutex::new(String::new());
+
 pub fn new_context() -> Context {
     use chrono::TimeZone;
     let mut ctx = rink_core::simple_context().expect("simple_context");
@@ -176,7 +178,10 @@ pub fn canon_parts(q: &Query, r: &Result<QueryReply, QueryError>) -> String {
 
 /// Worker loop: reads request lines from stdin, one answer line per request on stdout.
 pub fn worker() -> i32 {
-    std::panic::set_hook(Box::new(|_| {}));
+    std::panic::set_hook(Box::new(|info| {
+        let loc = info.location().map(|l| format!("{}:{}", l.file().rsplit("/repo/").next().unwrap_or(l.file()), l.line())).unwrap_or_default();
+        *PANIC_SITE.lock().unwrap() = loc;
+    }));
     let stdin = std::io::stdin();
     let stdout = std::io::stdout();
     let mut out = stdout.lock();
@@ -193,6 +198,16 @@ pub fn worker() -> i32 {
                     canon(&q, &r)
                 }));
                 match res { Ok(s) => s, Err(_) => "panic".to_string() }
+            }
+            ["evalt", input, ..] => {
+                // like `eval`, but a panic is answered with its source location (C04)
+                let text = unhex(input);
+                let res = std::panic::catch_unwind(std::panic::AssertUnwindSafe(|| {
+                    let (q, r) = eval_pinned(&mut ctx, &text);
+                    render_all(&r);
+                    canon(&q, &r)
+                }));
+                match res { Ok(s) => s, Err(_) => format!("panic {}", PANIC_SITE.lock().unwrap().replace(' ', "_")) }
             }
             ["evalp", input, ..] => {
                 let text = unhex(input);
